@@ -17,6 +17,7 @@ pub mod syscalls {
 //@use syscalls.fstatat a5
 //@use syscalls.fstatfs a5
 //@use syscalls.statx a5
+//@use-missing syscalls.openat syscalls.openat_follow syscalls.readlinkat syscalls.mkdirat syscalls.mknodat syscalls.unlinkat syscalls.linkat syscalls.symlinkat syscalls.renameat syscalls.renameat2 syscalls.openat2
 }
 use syscalls::Error as SyscallError;
 //@item src/error.rs :: enum ErrorKind | sub.ErrorKind
